@@ -105,6 +105,9 @@ type Node struct {
 
 	// LastOwnMomentumErr is the error of the last CreateMomentum insert (nil on success)
 	LastOwnMomentumErr error
+	// OwnMomentums counts the node's own momentums that were inserted; LastOwnMomentum is the latest
+	OwnMomentums    int
+	LastOwnMomentum *nom.Momentum
 	OwnBlockErrs       int
 }
 
@@ -225,6 +228,8 @@ func (n *Node) CreateMomentum(mt *nom.MomentumTransaction) {
 	if err != nil {
 		return
 	}
+	n.OwnMomentums++
+	n.LastOwnMomentum = mt.Momentum
 	store := n.Chain.GetFrontierMomentumStore()
 	detailed, err := store.PrefetchMomentum(mt.Momentum)
 	if err != nil {
